@@ -22,7 +22,7 @@ IMPORTS = 'From PV Require Import Michelson.Compare Michelson.Collections.'
 
 KEY_TYPES = [('int',), ('string',), ('pair', ('int',), ('string',)), ('or', ('int',), ('string',)), ('option', ('int',)),
              ('address',), ('pair', ('address',), ('option', ('nat',))), ('pair', ('or', ('bool',), ('bytes',)), ('pair', ('int',), ('int',))),
-             ('key_hash',), ('bytes',), ('key',), ('option', ('pair', ('string',), ('unit',))), ('or', ('unit',), ('pair', ('nat',), ('nat',)))]
+             ('key_hash',), ('bytes',), ('key',), ('signature',), ('address',), ('key',), ('chain_id',), ('option', ('pair', ('string',), ('unit',))), ('or', ('unit',), ('pair', ('nat',), ('nat',)))]
 
 
 def J(m):
@@ -86,7 +86,52 @@ def gen_pool(rng, t, k):
     return [shrink_ints(v) for v in gen_pool0(rng, t, k)]
 
 
+def mixed_kinds(rng, t, k):
+    """address / key / key_hash / signature pools that mix kinds, curves and notations in ONE collection: their base58
+    TEXT order (KT1 < sr1 < tz1; edpk < p2pk < sppk; edsig / sig / spsig) differs from the Michelson order."""
+    h = lambda n: bytes(rng.randrange(256) for _ in range(n))  # noqa: E731
+    out = []
+    if t[0] == 'address':
+        kinds = ['tz1', 'tz2', 'tz3', 'tz4', 'KT1', 'sr1']
+        rng.shuffle(kinds)
+        shared = h(20)
+        for kind in kinds[:max(2, k - 2)]:
+            out.append(('addr', kind, shared if rng.random() < 0.4 else h(20), rng.choice([None, None, 'a', 'z'])))
+        # the same contract without entrypoint (= %default) and with names on both sides of "default"
+        base = rng.choice(out)
+        out.append(('addr', base[1], base[2], None))
+        out.append(('addr', base[1], base[2], rng.choice(['a', 'Z', '0', 'burn', 'defaul'])))
+        if rng.random() < 0.5:
+            out.append(('addr', base[1], base[2], rng.choice(['e', 'transfer', 'default0', 'z'])))
+    elif t[0] == 'key':
+        curves = ['Ed', 'Secp', 'P256', 'Bls', 'Secp', 'P256']
+        rng.shuffle(curves)
+        for c in curves[:k]:
+            p = h(V.KEY_LEN[c])
+            if c in ('Secp', 'P256'):
+                p = bytes([rng.choice([2, 3])]) + p[1:]
+            out.append(('key', c, p))
+    elif t[0] == 'key_hash':
+        curves = ['Ed', 'Secp', 'P256', 'Bls', 'Ed', 'P256']
+        rng.shuffle(curves)
+        for c in curves[:k]:
+            out.append(('kh', c, h(20)))
+    elif t[0] == 'signature':
+        notes = ['sig', 'edsig', 'spsig1', 'p2sig', 'sig', 'edsig']
+        rng.shuffle(notes)
+        for n in notes[:k]:
+            out.append(('sig', h(64), n))
+        if rng.random() < 0.5:
+            out.append(('sig', h(96), 'BLsig'))
+    return out
+
+
 def gen_pool0(rng, t, k):
+    if t[0] in ('address', 'key', 'key_hash', 'signature') and rng.random() < 0.7:
+        pool = mixed_kinds(rng, t, min(k, 6))
+        while len(pool) < k:
+            pool.append(V.mutate(rng, t, rng.choice(pool)))
+        return pool
     pool = [V.gen_value(rng, t)]
     while len(pool) < k:
         pool.append(V.mutate(rng, t, rng.choice(pool)) if rng.random() < 0.8 else V.gen_value(rng, t))
@@ -454,6 +499,15 @@ def run(ctx: lib.Ctx) -> None:
         (False, tu, ku, [('push', ku), ('update', ku[1], True), ('update', ku[0], True), ('mem', ku[0]), ('update', ku[1], False), ('iter',)]),
         (True, tu, ku, [('push', [(ku[0], 1), (ku[1], 2)]), ('gau', ku[0], None), ('mapadd', 1), ('iter',)]),
     ]
+    H = bytes(range(1, 21))
+    ka = [('addr', 'tz3', H, None), ('addr', 'KT1', H, None), ('addr', 'tz1', H, 'z'), ('addr', 'sr1', H, None), ('addr', 'tz2', bytes(20), None),
+          ('addr', 'KT1', H, 'a'), ('addr', 'KT1', H, 'e'), ('addr', 'tz3', H, 'Z')]
+    kk = [('key', 'P256', bytes([2]) + bytes(range(32))), ('key', 'Secp', bytes([3]) + bytes(range(32))), ('key', 'Ed', bytes(range(32))),
+          ('key', 'Bls', bytes(48))]
+    ks = [('sig', bytes(range(64)), 'spsig1'), ('sig', bytes([1]) + bytes(63), 'edsig'), ('sig', bytes([255]) + bytes(63), 'sig'), ('sig', bytes(96), 'BLsig')]
+    for tt, kv in ((('address',), ka), (('key',), kk), (('signature',), ks)):
+        corpus.append((False, tt, kv, [('update', v, True) for v in kv] + [('iter',), ('update', kv[0], False), ('update', kv[0], True), ('iter',)]))
+        corpus.append((True, tt, kv, [('update', v, i) for i, v in enumerate(kv)] + [('iter',), ('gau', kv[1], None), ('update', kv[1], 9), ('iter',)]))
     ctx.corpus_cases = len(corpus)
     for h in range(-len(corpus), n_hist):
         vt = V.VT_INT
